@@ -231,7 +231,7 @@ static int cmd_run(int argc, char **argv, bool grid)
 	{
 		// state hashes are merged by the supervisor; cap what is shipped
 		long n = 0;
-		for (auto h : states) { if (n++ >= 200000) break; sts.push(hex64(h)); }
+		for (auto h : states) { if (n++ >= 20000) break; sts.push(hex64(h)); }
 	}
 	st.set("state_hashes", sts);
 	st.set("samples", samples);
